@@ -454,15 +454,20 @@ def _inspect(ctx, env, case, root, model, cpv, old, new, status, what, events):
 
 # ---------------------------------------------------------------- runner glue
 
+def _interleave(a, b):
+    """alternate the two task kinds so that both make progress whatever the job count / budget"""
+    out = []
+    for i in range(max(len(a), len(b))):
+        out += a[i:i + 1] + b[i:i + 1]
+    return out
+
+
 def plan(tier, seed):
-    # crash tasks first: they are the deciding part and must not be starved by the budget guard
     if tier == "quick":
-        return [{"task": "crash", "examples": 32} for _ in range(10)] + [
-            {"task": "roundtrip", "examples": 300} for _ in range(6)
-        ]
-    return [{"task": "crash", "examples": 1200} for _ in range(16)] + [
-        {"task": "roundtrip", "examples": 10000} for _ in range(8)
-    ]
+        return _interleave([{"task": "crash", "examples": 32} for _ in range(10)],
+                           [{"task": "roundtrip", "examples": 300} for _ in range(6)])
+    return _interleave([{"task": "crash", "examples": 1200} for _ in range(16)],
+                       [{"task": "roundtrip", "examples": 10000} for _ in range(8)])
 
 
 def run_task(ctx, task, **kw):
